@@ -83,7 +83,9 @@ Proof.
 Qed.
 Lemma nz_mk_any sc tag z : nz_free (ids_slot (mk_any sc tag z)).
 Proof.
-  intros a Ha. unfold mk_any. destruct (Nat.ltb tag 5); [reflexivity|]. simpl. rewrite cnt_zero_head by auto.
+  intros a Ha. unfold mk_any. destruct (Nat.ltb tag 5); [reflexivity|].
+  destruct (Nat.eqb tag 7); [change (ids_slot (CR (Some (0, 7, [cempty_bytes])))) with [0; 0]; now rewrite !cnt_zero_head|].
+  simpl. rewrite cnt_zero_head by auto.
   change (flat_map ids_slot (czero_row sc (any_rowty tag))) with (ids_row (czero_row sc (any_rowty tag))). now rewrite ids_zero_row.
 Qed.
 Lemma nz_prim_rows zs : nz_free (ids_rows (prim_rows zs)).
@@ -100,6 +102,15 @@ Lemma nz_map_cfresh r : nz_free (flat_map ids_slot (map cfresh r)).
 Proof. intros a Ha. induction r; simpl; auto. rewrite cnt_app, (nz_cfresh _ a Ha). exact IHr. Qed.
 Lemma nz_rows_cfresh l : nz_free (flat_map (flat_map ids_slot) (map (map cfresh) l)).
 Proof. intros a Ha. induction l; simpl; auto. rewrite cnt_app, (nz_map_cfresh _ a Ha). exact IHl. Qed.
+Lemma nz_bytes_clone s : nz_free (ids_slot (cbytes_clone s)).
+Proof.
+  destruct s as [| |r|[[[b l] t]|]]; try apply nz_cfresh; intros a Ha.
+  - change (ids_slot (cbytes_clone (CS (Some (b, l, t))))) with (0 :: flat_map (flat_map ids_slot) (map (map cfresh) l) ++ []).
+    rewrite cnt_zero_head by auto. rewrite app_nil_r. now apply nz_rows_cfresh.
+  - change (ids_slot (cbytes_clone (CS None))) with [0]. now rewrite cnt_zero_head.
+Qed.
+Lemma nz_map_bytes_clone r : nz_free (flat_map ids_slot (map cbytes_clone r)).
+Proof. intros a Ha. induction r; simpl; auto. rewrite cnt_app, (nz_bytes_clone _ a Ha). exact IHr. Qed.
 
 Lemma nz_mk_cs rows : nz_free (flat_map (flat_map ids_slot) rows) -> nz_free (ids_slot (mk_cs rows)).
 Proof.
@@ -111,7 +122,7 @@ Lemma nz_craw r : nz_free (ids_slot (craw r)).
 Proof.
   induction r as [|t z|zs|kvs IH|l IH] using raw_ind'; intros a Ha; simpl; auto.
   - rewrite cnt_zero_head, app_nil_r by auto.
-    destruct zs; simpl; auto. rewrite cnt_zero_head, app_nil_r by auto.
+    destruct zs as [|z zs]; simpl; rewrite cnt_zero_head by auto; [reflexivity|]. rewrite app_nil_r.
     induction zs; simpl; auto.
   - rewrite cnt_zero_head, app_nil_r by auto. apply nz_mk_cs; auto. clear a Ha. intros a Ha.
     induction IH as [|kv kvs Hkv _ IHk]; simpl; auto. rewrite app_nil_r, cnt_app, (Hkv a Ha). exact IHk.
@@ -188,7 +199,8 @@ Proof.
     pose proof (cnt_flat_swap_remove (flat_map ids_slot) n l a). liac.
   - apply prim_copy_le. apply nz_prim_rows.
   - intros a Ha. simpl. rewrite cnt_zero_head, app_nil_r by auto.
-    pose proof (prim_copy_le (prim_rows zs) (CS None) (nz_prim_rows zs) a Ha) as K. simpl in K. liac.
+    pose proof (prim_copy_le (prim_rows zs) cempty_bytes (nz_prim_rows zs) a Ha) as K. unfold cempty_bytes in K. change (ids_slot (CS (Some (0, [], [])))) with [0] in K. rewrite cnt_zero_head in K by auto. simpl in K. liac.
+  - intros a Ha. simpl. rewrite !cnt_zero_head by auto. liac.
   - intros a Ha. rewrite (nz_craw r a Ha). lia.
   - intros a Ha. rewrite nz_mk_cs; auto; [lia|]. clear. intros a Ha.
     induction kvs as [|kv kvs IH]; simpl; auto. rewrite app_nil_r, cnt_app, (nz_craw (snd kv) a Ha). exact IH.
@@ -244,7 +256,7 @@ Proof.
       rewrite !cnt_cons. specialize (R (rowty sc n) dr b Hb). unfold ids_row in R. liac.
     + rewrite cnt_zero_head, R0 by auto. liac.
     + destruct (Nat.eqb tg 7); simpl.
-      * rewrite cnt_cons1, (nz_map_cfresh r b Hb). pose proof (bytes_addr_le d b Hb). liac.
+      * rewrite cnt_cons1, (nz_map_bytes_clone r b Hb). pose proof (bytes_addr_le d b Hb). liac.
       * destruct d as [| |[[[a' tg'] dr]|]|]; simpl; rewrite ?cnt_zero_head, ?R0 by auto; try liac.
         destruct (Nat.eqb tg tg'); simpl; rewrite ?cnt_zero_head, ?R0 by auto; try liac.
         rewrite !cnt_cons. specialize (R (rowty sc (any_rowty tg)) dr b Hb). unfold ids_row in R. liac.
@@ -783,4 +795,117 @@ Proof.
   rewrite (store_at_path a f j s p r x); auto.
   - unfold row_of, waddr_state in *. simpl. rewrite nth_error_map'. destruct (nth_error (s_hs st) h); simpl in *; inversion Hr; subst; reflexivity.
   - intros b. pose proof (cnt_handle_le st h r b Hr). specialize (Hc b). lia.
+Qed.
+
+(* ---- arbitrary start contents ---------------------------------------------------------------------------------------------
+   "starting from arbitrary contents": every pure value v is the abstraction of a heap that a constructor / unmarshaller
+   builds with freshly allocated objects (cbuild: one new object per pointer and per non-empty slice, no spare capacity),
+   and loading such values as new handles preserves sep.  So sep is not an assumption about an arbitrary start heap: every
+   start content is reachable through cload from the empty state. *)
+Fixpoint cbuild (s : vslot) : cslot :=
+  match s with
+  | VP z => CP z
+  | VI t z => CI t z
+  | VR None => CR None
+  | VR (Some (t, r)) => CR (Some (0, t, map cbuild r))
+  | VS rows => mk_cs (map (map cbuild) rows)
+  end.
+Definition cload (st : cstate) (n : nat) (v : vrow) : cstate :=
+  let '(r', n') := relab_row (s_next st) (map cbuild v) in
+  mkS n' (s_hs st ++ [mkH false n r']).
+
+Section vslot_induction2.
+  Variable P : vslot -> Prop.
+  Hypothesis HP : forall z, P (VP z).
+  Hypothesis HI : forall t z, P (VI t z).
+  Hypothesis HRN : P (VR None).
+  Hypothesis HR : forall t r, Forall P r -> P (VR (Some (t, r))).
+  Hypothesis HS : forall rows, Forall (Forall P) rows -> P (VS rows).
+  Fixpoint vslot_ind2 (s : vslot) : P s :=
+    match s with
+    | VP z => HP z
+    | VI t z => HI t z
+    | VR None => HRN
+    | VR (Some (t, r)) =>
+        HR t r ((fix go (r : list vslot) : Forall P r :=
+                   match r with [] => Forall_nil _ | x :: r' => Forall_cons _ (vslot_ind2 x) (go r') end) r)
+    | VS rows =>
+        HS rows ((fix gos (rs : list (list vslot)) : Forall (Forall P) rs :=
+          match rs with
+          | [] => Forall_nil _
+          | r :: rs' => Forall_cons _ ((fix go (r : list vslot) : Forall P r :=
+                     match r with [] => Forall_nil _ | x :: r' => Forall_cons _ (vslot_ind2 x) (go r') end) r) (gos rs')
+          end) rows)
+    end.
+End vslot_induction2.
+
+Lemma abs_cbuild s : abs_slot (cbuild s) = s.
+Proof.
+  induction s as [z|t z| |t r IH|rows IH] using vslot_ind2; simpl; auto.
+  - f_equal. f_equal. f_equal. rewrite map_map. rewrite <- (map_id r) at 2. now apply map_ext_Forall.
+  - rewrite abs_mk_cs. f_equal. unfold abs_row. rewrite map_map. rewrite <- (map_id rows) at 2. apply map_ext_Forall.
+    eapply Forall_impl; [|exact IH]. intros q Hq. simpl. rewrite map_map. rewrite <- (map_id q) at 2. now apply map_ext_Forall.
+Qed.
+
+Lemma nz_cbuild s : nz_free (ids_slot (cbuild s)).
+Proof.
+  induction s as [z|t z| |t r IH|rows IH] using vslot_ind2; intros a Ha; simpl; auto.
+  - rewrite cnt_zero_head by auto. induction IH as [|x r Hx _ IHr]; simpl; auto. rewrite cnt_app, (Hx a Ha). exact IHr.
+  - apply nz_mk_cs; auto. clear a Ha. intros a Ha. induction IH as [|q rows Hq _ IHr]; simpl; auto.
+    rewrite cnt_app, IHr. clear IHr. induction Hq as [|x q Hx _ IHq]; simpl; auto. rewrite cnt_app, (Hx a Ha). exact IHq.
+Qed.
+
+Lemma sep_add_handle st n r : sep st -> nz_free (ids_row r) ->
+  sep (mkS (snd (relab_row (s_next st) r)) (s_hs st ++ [mkH false n (fst (relab_row (s_next st) r))])).
+Proof.
+  intros [[Hn Hb] Hc] Hz.
+  assert (Hin : forall a, In a (ids_row r) -> a <> 0 -> a < s_next st).
+  { intros a Hi Ha. apply cnt_in in Hi. rewrite (Hz a Ha) in Hi. lia. }
+  destruct (relab_row_ids r (s_next st)) as [R1 R2].
+  destruct (relabl_spec (ids_row r) (s_next st) Hn Hin) as (S1 & S2 & S3 & S4).
+  destruct (relab_row (s_next st) r) as [r' n']. simpl in *. rewrite <- R1, <- R2 in *. clear R1 R2.
+  assert (E : forall a, cnt (all_ids (mkS n' (s_hs st ++ [mkH false n r']))) a = cnt (all_ids st) a + cnt (ids_row r') a).
+  { intros a. unfold all_ids. simpl. rewrite flat_map_app, cnt_app. simpl. now rewrite app_nil_r. }
+  split; [split|]; simpl.
+  - lia.
+  - intros a Hi. apply cnt_in in Hi. rewrite E in Hi.
+    destruct (Nat.eq_dec (cnt (ids_row r') a) 0) as [Z|Z].
+    + assert (In a (all_ids st)) by (apply cnt_in; lia). specialize (Hb a H). lia.
+    + assert (In a (ids_row r')) by (apply cnt_in; lia). specialize (S2 a H). lia.
+  - intros a. rewrite E. destruct (Nat.eq_dec a 0) as [->|Ha].
+    + rewrite (bounded_cnt0 st (conj Hn Hb)). rewrite cnt_notin; [lia|]. intros Hi. specialize (S2 0 Hi). lia.
+    + destruct (Nat.lt_ge_cases a (s_next st)) as [Hlt|Hge].
+      * rewrite (S3 a Ha Hlt), (Hz a Ha). specialize (Hc a). lia.
+      * rewrite (cnt_notin (all_ids st) a); [specialize (S4 a Hge); lia|]. intros Hi. specialize (Hb a Hi). lia.
+Qed.
+
+Lemma nz_map_cbuild v : nz_free (ids_row (map cbuild v)).
+Proof. intros a Ha. unfold ids_row. induction v; simpl; auto. rewrite cnt_app, (nz_cbuild _ a Ha). exact IHv. Qed.
+
+Theorem cload_sep st n v : sep st -> sep (cload st n v).
+Proof.
+  intros Hs. unfold cload. pose proof (sep_add_handle st n (map cbuild v) Hs (nz_map_cbuild v)) as H.
+  destruct (relab_row (s_next st) (map cbuild v)) as [r' n']. exact H.
+Qed.
+
+Theorem cload_abs st n v : abs_state (cload st n v) = abs_state st ++ [mkA false n v].
+Proof.
+  unfold cload. pose proof (relab_row_abs (map cbuild v) (s_next st)) as A.
+  destruct (relab_row (s_next st) (map cbuild v)) as [r' n']. simpl in A. unfold abs_state. simpl. rewrite map_app. simpl.
+  unfold abs_handle at 2. simpl. rewrite A. unfold abs_row. rewrite map_map. f_equal. f_equal. f_equal.
+  rewrite <- (map_id v) at 2. apply map_ext. apply abs_cbuild.
+Qed.
+
+(* every list of arbitrary start values is the abstraction of a state that satisfies sep *)
+Fixpoint cload_all (st : cstate) (vs : list (nat * vrow)) : cstate :=
+  match vs with [] => st | (n, v) :: vs' => cload_all (cload st n v) vs' end.
+Theorem arbitrary_contents vs :
+  sep (cload_all cstate0 vs) /\ abs_state (cload_all cstate0 vs) = map (fun nv => mkA false (fst nv) (snd nv)) vs.
+Proof.
+  assert (G : forall st, sep st -> sep (cload_all st vs) /\
+              abs_state (cload_all st vs) = abs_state st ++ map (fun nv => mkA false (fst nv) (snd nv)) vs).
+  { induction vs as [|[n v] vs IH]; intros st Hs; simpl.
+    - split; auto. now rewrite app_nil_r.
+    - destruct (IH (cload st n v) (cload_sep st n v Hs)) as [I1 I2]. split; auto. rewrite I2, cload_abs, <- app_assoc. reflexivity. }
+  destruct (G cstate0 sep_empty) as [G1 G2]. split; auto.
 Qed.
